@@ -981,6 +981,8 @@ class Path:
             if step:
                 step()
             spec.check_inv(self, 'inv-preserved')
+            if getattr(spec, 'mods', None) is not None:
+                spec.check_loop_frame(self)
             if v0 is not None:
                 v1 = spec.variant(self)
                 self.oblige(spec.name('variant-decreases'), 'variant', self.compare_op(ast.Lt(), v1, v0))
@@ -1734,6 +1736,8 @@ class Path:
             if isinstance(o, BAObj):
                 return self.length(o.val)
             if isinstance(o, LObj):
+                if o.flavor == 'set' and o.items:
+                    raise Unsupported('len of a set with symbolic members')
                 return len(o.items) if o.items is not None else self.length(o.sym)
             if isinstance(o, DObj):
                 return len(o.items)
